@@ -79,7 +79,9 @@ static int process_data(xfrm_stream_t *stream, const void *in,
 	if (flush_mode < 0 || flush_mode >= XFRM_STREAM_FLUSH_COUNT)
 		flush_mode = XFRM_STREAM_FLUSH_NONE;
 
-	while (in_size > 0 && out_size > 0) {
+	while ((in_size > 0 || (xz->compress &&
+				flush_mode == XFRM_STREAM_FLUSH_FULL)) &&
+	       out_size > 0) {
 		xz->strm.next_in = in;
 		xz->strm.avail_in = in_size;
 
